@@ -1,100 +1,9 @@
-//! flacmon — workload drivers and runtime monitors for the flac-codec properties.
-
-#![allow(dead_code)]
-mod api;
-mod engines;
-mod io;
-mod json;
-mod mon;
-mod report;
+//! flacmon command line: installs the counting allocator and runs the selected engine.
 
 #[cfg(not(any(miri, feature = "noalloc")))]
 #[global_allocator]
-static ALLOC: mon::CountingAlloc = mon::CountingAlloc;
-
-#[derive(Debug, Clone)]
-pub struct Ctx {
-    pub seed: u64,
-    pub shard: u64,
-    pub nshards: u64,
-    pub thorough: bool,
-    /// soft budget for the random-exploration part, seconds
-    pub budget_s: f64,
-    pub profile: String,
-    pub start: std::time::Instant,
-    pub replay: Option<String>,
-    pub extra: Vec<String>,
-}
-
-impl Ctx {
-    pub fn time_left(&self) -> bool {
-        self.start.elapsed().as_secs_f64() < self.budget_s
-    }
-    pub fn rng(&self, tag: u64) -> flacref::rng::Rng {
-        flacref::rng::Rng::new(self.seed.wrapping_mul(0x9E3779B97F4A7C15) ^ (self.shard << 32) ^ tag)
-    }
-    /// is work item `i` assigned to this shard?
-    pub fn mine(&self, i: u64) -> bool {
-        i % self.nshards == self.shard
-    }
-}
+static ALLOC: flacmon::mon::CountingAlloc = flacmon::mon::CountingAlloc;
 
 fn main() {
-    let args: Vec<String> = std::env::args().collect();
-    if args.len() < 2 {
-        eprintln!("usage: flacmon <engine> [--seed N] [--shard i/n] [--tier quick|thorough] [--budget S] [--profile P] [--out FILE] [--replay FILE]");
-        std::process::exit(2);
-    }
-    let engine = args[1].clone();
-    let mut ctx = Ctx {
-        seed: 1,
-        shard: 0,
-        nshards: 1,
-        thorough: false,
-        budget_s: 20.0,
-        profile: "release".into(),
-        start: std::time::Instant::now(),
-        replay: None,
-        extra: vec![],
-    };
-    let mut out: Option<String> = None;
-    let mut i = 2;
-    while i < args.len() {
-        let v = args.get(i + 1).cloned().unwrap_or_default();
-        match args[i].as_str() {
-            "--seed" => ctx.seed = v.parse().unwrap_or(1),
-            "--shard" => {
-                let mut p = v.split('/');
-                ctx.shard = p.next().and_then(|x| x.parse().ok()).unwrap_or(0);
-                ctx.nshards = p.next().and_then(|x| x.parse().ok()).unwrap_or(1);
-            }
-            "--tier" => ctx.thorough = v == "thorough",
-            "--budget" => ctx.budget_s = v.parse().unwrap_or(20.0),
-            "--profile" => ctx.profile = v.clone(),
-            "--out" => out = Some(v.clone()),
-            "--replay" => ctx.replay = Some(v.clone()),
-            other => {
-                ctx.extra.push(other.to_string());
-                i += 1;
-                continue;
-            }
-        }
-        i += 2;
-    }
-    mon::install_panic_hook();
-    mon::start_watchdog();
-    let caselog = out.as_ref().map(|o| format!("{o}.caselog"));
-    let mut rep = report::Report::new(&engine, caselog.as_deref());
-    let known = engines::run(&engine, &ctx, &mut rep);
-    if !known {
-        eprintln!("unknown engine {engine}");
-        std::process::exit(2);
-    }
-    let js = rep.to_json().set("profile", ctx.profile.as_str()).set("shard", ctx.shard).set("wall_s", ctx.start.elapsed().as_secs_f64());
-    match out {
-        Some(o) => {
-            std::fs::write(&o, js.to_string()).expect("write report");
-        }
-        None => println!("{}", js.to_string()),
-    }
+    flacmon::cli_main();
 }
